@@ -1,4 +1,5 @@
 """C06 — decided on the server model; see lib/srvprops.py and coq/Props/C06.v"""
+import serverlib as sl
 import srvprops
 
 PROP = "C06"
@@ -8,5 +9,42 @@ THEOREMS = ["C06_preauth_is_inert", "C06_phase_monotone", "C06_no_reidentify", "
 LINK_NOTE = "Modulator-link stage: the real S2M/M2S dispatchers (crates/modulator/src/conn.rs) behind the real connection engine are fed raw byte chunks (handshakes with right/wrong/missing secret and version, the whole three-link vocabulary in each phase, payloads, scripted modulator outcomes) and compared chunk by chunk with Model/Link.v inside coqc (Conf/LinkConf.link_conf); the real S2mClient (crates/modulator/src/client.rs) is run against a scripted wire peer (sensible, contradictory, mis-correlated, malformed, missing replies, dropped links) and each call's result is compared with Model/Link.v's reply mapping (Conf/LinkConf.client_conf); a share of the server histories runs with the real S2M/M2S wire path between server and modulator (unix sockets)."
 
 
+def slow_auth_histories(r, thorough):
+    """a link whose AUTH is suspended in the modulator for longer than request_timeout (the handshake is not a request: it
+    simply waits), possibly hanging up meanwhile: whatever the modulator answers in the end, a link that is gone causes no
+    routing state — nobody can be joined on its user's behalf, MEMBERS lists nobody without a live connection, the name is
+    not taken.  Outside the sequential model (parked call): judged by the tracker and the audit."""
+    import srvmon
+    cases = []
+    for i in range(8 if thorough else 4):
+        mod = {"ops": ["auth", "fwd-event"], "proto": "P/1"}
+        cfg = sl.base_cfg(r, mod)
+        cfg.update({"max_clients": 10, "max_subs": 10, "max_conns": 16, "max_channels": 100, "max_inflight": 10, "request_timeout_ms": 5000})
+        g = sl.Gen(r, cfg)
+        ch = "!c1@localhost"
+        g.ops.append({"t": "open", "k": 1})
+        g.send(1, sl.frame("CONNECT", [("version", 1), ("heartbeat_interval", 0)]), [])
+        g.send(1, sl.frame("AUTH", [("token", "tok-alice")]), [{"auth_success": b"alice".hex()}])
+        g.conns[1] = {"phase": 2, "user": "alice"}
+        g.send(1, sl.frame("JOIN", [("id", g.rid()), ("channel", ch)]), ["ok"])
+        g.ops.append({"t": "open", "k": 2})
+        g.send(2, sl.frame("CONNECT", [("version", 1), ("heartbeat_interval", 0)]), [])
+        g.ops.append({"t": "send", "k": 2, "bytes": sl.frame("AUTH", [("token", "tok-bob")]).hex(), "script": [{"park": 1}]})
+        g.ops.append({"t": "advance", "ms": 6000})
+        hang = i % 2 == 1
+        if hang:
+            g.ops.append({"t": "hangup", "k": 2, "script": []})
+        g.ops.append({"t": "release", "id": 1, "outcome": {"auth_success": b"bob".hex()} if i % 4 < 2 else "auth_fail"})
+        g.ops.append({"t": "advance", "ms": 50})
+        if not hang and i % 4 < 2:
+            g.conns[2] = {"phase": 2, "user": "bob"}
+        # the owner tries to join bob on his behalf: accepted only if bob has a live connection
+        g.send(1, sl.frame("JOIN", [("id", g.rid()), ("channel", ch), ("on_behalf", "bob@localhost")]), ["ok"])
+        ops = g.ops + srvmon.audit_ops(g)
+        cases.append({"cfg": cfg, "ops": ops, "nomodel": True, "also": ["C05"]})
+    return cases
+
+
 def run(tier, replay=None):
-    return srvprops.run(PROP, THEOREMS, tier, replay, link=("link", "client"), rule_note=LINK_NOTE)
+    return srvprops.run(PROP, THEOREMS, tier, replay, link=("link", "client"), extra_gen=slow_auth_histories,
+                        rule_note=LINK_NOTE + " Plus slow-AUTH histories: an AUTH suspended in the modulator beyond request_timeout, the link possibly gone meanwhile; the owner then tries an on-behalf JOIN of that user and everybody is audited.")
